@@ -563,6 +563,7 @@ def efunCall (f : String) (args : List (Value R)) : Res (Value R) :=
   | "sizeof", [.str s] => .ok (.int s.length)
   | "sizeof", [_] => .ok (.int 0)
   | "strlen", [.str s] => .ok (.int s.length)
+  | "#if", [v] => .ok v          -- value of a preprocessor condition (64-bit integers in the reference semantics)
   | "allocate", [.int n] => if 0 ≤ n ∧ n ≤ 15000 then .ok (.arr (List.replicate n.toNat (.int 0))) else .err
   | "allocate_buffer", [.int n] => if 0 ≤ n ∧ n ≤ 100000 then .ok (.buf (List.replicate n.toNat 0)) else .err
   | _, _ => .err
